@@ -4,7 +4,7 @@
    this instance is what is extracted and run against the implementation, and what the
    [_refuted] witnesses are written in. *)
 From Coq Require Import List ZArith Bool Arith.
-From Cb Require Import C15.Model.
+From Cb Require Import C15.Model C15.Body.
 Import ListNotations.
 Local Open Scope nat_scope.
 
@@ -29,12 +29,14 @@ Inductive stmt :=
 | SSimple (x : simple)
 | SYield                              (* yield;   (top level of a task body) *)
 | SReturn                             (* return k; *)
-| SLoop (n : nat) (body : list simple).   (* for (int i = 0; i < n; i = i + 1) { body } *)
+| SLoop (n : nat) (body : list simple)    (* for (int i = 0; i < n; i = i + 1) { body } *)
+| SBody (b : bstmt simple).               (* any structured statement of Body.v *)
 
-Record locals := mkLocals { l_slots : list (nat * nat); l_iter : nat; l_t0 : Z }.
+(* l_env: the loop counters and resume positions of the activation (Body.v) *)
+Record locals := mkLocals { l_slots : list (nat * nat); l_iter : nat; l_t0 : Z; l_env : env }.
 Definition globals := list (nat * nat).
 
-Definition l0 : locals := mkLocals [] 0 0%Z.
+Definition l0 : locals := mkLocals [] 0 0%Z env0.
 
 Fixpoint get (k : nat) (m : list (nat * nat)) : nat :=
   match m with
@@ -43,9 +45,10 @@ Fixpoint get (k : nat) (m : list (nat * nat)) : nat :=
   end.
 Definition set (k v : nat) (m : list (nat * nat)) : list (nat * nat) := (k, v) :: m.
 
-Definition set_slot (k v : nat) (l : locals) := mkLocals (set k v (l_slots l)) (l_iter l) (l_t0 l).
-Definition set_iter (i : nat) (l : locals) := mkLocals (l_slots l) i (l_t0 l).
-Definition set_t0 (t : Z) (l : locals) := mkLocals (l_slots l) (l_iter l) t.
+Definition set_slot (k v : nat) (l : locals) := mkLocals (set k v (l_slots l)) (l_iter l) (l_t0 l) (l_env l).
+Definition set_iter (i : nat) (l : locals) := mkLocals (l_slots l) i (l_t0 l) (l_env l).
+Definition set_t0 (t : Z) (l : locals) := mkLocals (l_slots l) (l_iter l) t (l_env l).
+Definition set_env (e : env) (l : locals) := mkLocals (l_slots l) (l_iter l) (l_t0 l) e.
 
 Notation cprog := (prog locals globals nat).
 
@@ -82,6 +85,37 @@ Fixpoint main_loop (n : nat) (body : list simple) (l : locals) : cprog :=
   | S n' => do_seq body l (fun l' => PBg _ _ _ (main_loop n' body l'))
   end.
 
+(* the items of one step of a structured statement (Body.exec) as scheduler requests; the ghost
+   marks ask nothing *)
+Fixpoint do_items (its : list (item simple)) (l : locals) (k : locals -> cprog) : cprog :=
+  match its with
+  | [] => k l
+  | ISimple x :: r => do_simple x l (fun l' => do_items r l' k)
+  | IBg :: r => PBg _ _ _ (do_items r l k)
+  | ICycle :: r => PCycle _ _ _ (do_items r l k)
+  | _ :: r => do_items r l k
+  end.
+
+(* how execute_one_step / main's statement list see the end of the statement *)
+Definition out_of (r : res) : outcome :=
+  match r with
+  | RYield fl => OYield fl
+  | RReturn => OReturn
+  | _ => ONormal
+  end.
+
+(* recursion depth + iterations of one step (no generated statement comes near it) *)
+Definition body_fuel : nat := 400.
+
+Definition denote_body_f (fuel : nat) (is_task : bool) (b : bstmt simple) (l : locals) : cprog :=
+  let '(its, r, e') := bexec simple is_task fuel b (l_env l) in
+  do_items its l (fun l' =>
+    match r with
+    | RFuel => POut _ _ _ (-1)%Z (PDone _ _ _ OReturn (set_env e' l'))     (* visible: never matches the implementation *)
+    | _ => PDone _ _ _ (out_of r) (set_env e' l')
+    end).
+Definition denote_body : bool -> bstmt simple -> locals -> cprog := denote_body_f body_fuel.
+
 (* one top-level statement.  Inside a task every loop iteration ends the step with
    YieldException(true) (auto_yield is true for every task: AsyncTask's default, never reset);
    re-entering the statement continues with the next iteration. *)
@@ -96,6 +130,7 @@ Definition denote (is_task : bool) (st : stmt) (l : locals) : cprog :=
         then do_seq body l (fun l' => PDone _ _ _ (OYield true) (set_iter (S (l_iter l')) l'))
         else PDone _ _ _ ONormal (set_iter 0 l)
       else main_loop n body l
+  | SBody b => denote_body is_task b l
   end.
 
 (* function 0 is main; an async call names a function >= 1 *)
